@@ -333,6 +333,8 @@ def eval_sphinx(ctx, case):
     files = {"index.md": case["text"], "other.md": "# Other\n\n(lbl)=\npara\n", "sub/deep.md": "# Deep\n", "data.txt": "x", "adir/x.txt": "x"}
     conf = {"myst_" + k: v for k, v in case.get("cfg", {}).items() if k not in ("highlight_code_blocks", "suppress_warnings", "inventories")}
     conf["exclude_patterns"] = ["_build"]
+    if case.get("cfg", {}).get("suppress_warnings"):
+        conf["suppress_warnings"] = list(case["cfg"]["suppress_warnings"])  # Sphinx' own setting is what MyST reads there
     b = drive.SphinxBuild(files, conf=conf, builder=case.get("builder", "dummy"))
     try:
         REACH.begin_case(budget(case["text"]) * 3)
@@ -392,7 +394,7 @@ def run_shard(ctx):
     nd = 1400 if quick else 60000
     for i in range(nd):
         sub, text = make_text(R)
-        cfg = G.random_config(R)
+        cfg = G.random_config(R, suppress=True)
         if sub in ("html",):
             cfg["enable_extensions"] = sorted(set(cfg.get("enable_extensions", [])) | {"html_image", "html_admonition"})
         if sub in ("frontmatter", "soup", "mutated") and "substitution" in cfg.get("enable_extensions", []) and R.random() < 0.5:
@@ -437,7 +439,7 @@ def run_shard(ctx):
         sub, text = make_text(R)
         if i % 3 == 0:
             sub, text = "links", hostile_links(R)
-        cfg = G.random_config(R, allow_modes=False)
+        cfg = G.random_config(R, allow_modes=False, suppress=True)
         case = {"kind": "sphinx", "sub": sub, "text": text, "cfg": cfg, "builder": "dummy" if i % 4 else "html"}
         eval_case(ctx, case)
         ctx.case(("sphinx", text, repr(cfg)), text.count("\n") >= 2)
